@@ -50,7 +50,7 @@ TEXTS = {
                      "The model is replayed call by call against the implementation (results, invocation counts, size, table length, per-bucket chain layout, iteration order) through growth to hundreds of buckets and back. "
                      "Concurrency (theories/HashMapConc.v, HashMapConcProofs.v): a small-step model of the protocol between Compute, resize and the lock-free Get (root-bucket locks, resize-in-progress and newer-table re-checks, the resizing flag, "
                      "buckets copied under their locks in any order, grow-before-insert with retry, shrink attempts that give up, publication before release) for ANY number of threads, EVERY schedule and all hash functions: "
-                     "C15_concurrent_table_is_the_map - the published table always holds exactly the abstract map (nothing lost, nothing resurrected across resizes); C15_concurrent_update_atomic / _applied_exactly_once - a function is given the abstract map's binding "
+                     "C15_concurrent_linearization - the published table is what one gets by applying the threads' functions one after the other, in the order of their update steps, to the empty map, and a thread occurs in that order exactly as often as it has applied its function (once when its Compute is past its update, never before); C15_concurrent_table_is_the_map - the published table always holds exactly the abstract map (nothing lost, nothing resurrected across resizes); C15_concurrent_update_atomic / _applied_exactly_once - a function is given the abstract map's binding "
                      "under the lock of the current table's bucket and is applied exactly once per call whatever retries happen; C15_concurrent_get_regular - a Get returns a binding its key had between its table load and its return; C15_concurrent_iteration_sound / _complete / _no_removed_entry - what a finished Range yielded for a key is what the abstract map held for it at some moment of the iteration "
                      "(so a key present throughout is yielded, one removed before it began is not); C15_concurrent_no_deadlock - a reachable state in which no step changes anything has every call returned; C15_concurrent_size_accounted / _size_exact_when_quiescent - the current table's size counter plus what the writers that updated it still owe it (they add +1/-1 after releasing the bucket lock; a resize starts the new table with the number of entries it copied) is the number of keys bound, so Size() is exact once every call has returned; bucket locks and the flag are mutual exclusions "
                      "(inductive invariant over counts of lock holders / resizers, ghost history of the map). The tbl engine replays hook-to-hook schedules of the real table on the extracted model. "
